@@ -1,6 +1,6 @@
-/- WD.Rst: what `stop()` joins.  The thread index a `stop()` carries from `process_watcher` (through `_stop_process`, the
-   kill loop and `event_debouncer.join()`) to `process_watcher.join()` is that of a watcher thread, and watcher threads
-   only ever sit at the pcs of `ProcessWatcher.run` and of the restart they trigger. -/
+/- WD.Rst: what `stop()` joins.  The thread indices a `stop()` carries from `_process_watchers` (through `_stop_process`,
+   the kill loop and `event_debouncer.join()`) to the `process_watcher.join()` loop are those of watcher threads, and
+   watcher threads only ever sit at the pcs of `ProcessWatcher.run` and of the restart they trigger. -/
 import WD.Proofs.Restart.Cond
 namespace WD.ProofsRst
 open WD.Rst
@@ -10,20 +10,21 @@ def wPc : Pc → Bool
   | .begin | .done | .wWait _ | .rAcq | .spAcq .restart | .spSleep _ _ .restart | .rStarted => true
   | _ => false
 
-/-- the watcher thread a `stop()` in progress will join -/
-def carried : Pc → Option Nat
-  | .stJoinW w => some w
-  | .stJoinDeb w => w
-  | .spAcq (.stop w) => w
-  | .spSleep _ _ (.stop w) => w
-  | _ => none
+/-- the watcher threads a `stop()` in progress will join -/
+def carried : Pc → List Nat
+  | .stJoinW w rest => w :: rest
+  | .stJoinDeb ws => ws
+  | .spAcq (.stop ws) => ws
+  | .spSleep _ _ (.stop ws) => ws
+  | _ => []
 
 /-- thread `w` exists and is a process watcher -/
 def isWat (s : State) (w : Nat) : Prop := ∃ pid pc, kp s w = some (Kind.watcher pid, pc)
 
 structure WX (s : State) (x : Option Nat) : Prop where
   wr : ∀ w, s.watcher = some w → isWat s w
-  wk : ∀ j k pc w, some j ≠ x → kp s j = some (k, pc) → carried pc = some w → isWat s w
+  wl : ∀ w ∈ s.watchers, isWat s w
+  wk : ∀ j k pc w, some j ≠ x → kp s j = some (k, pc) → w ∈ carried pc → isWat s w
   ty : ∀ j k pc, some j ≠ x → kp s j = some (k, pc) → isWatcher k = true → wPc pc = true
 
 abbrev WI (s : State) : Prop := WX s none
@@ -46,13 +47,15 @@ theorem isWat_transfer {s s' : State} {i : Nat} {k : Kind} (hme0 : ∃ pc, kp s 
 
 theorem WCtx.transfer {s s' : State} {i : Nat} {k : Kind} (c : WCtx s i k)
     (hkp : ∀ j, j ≠ i → kp s' j = kp s j) (hme : ∃ pc, kp s' i = some (k, pc))
-    (hw : s'.watcher = s.watcher ∨ s'.watcher = none) : WCtx s' i k := by
+    (hw : s'.watcher = s.watcher ∨ s'.watcher = none) (hl : ∀ w ∈ s'.watchers, w ∈ s.watchers := by simp) : WCtx s' i k := by
   have mono : ∀ {w}, isWat s w → isWat s' w := fun h => isWat_transfer c.me hkp hme h
-  refine ⟨⟨?_, ?_, ?_⟩, hme⟩
+  refine ⟨⟨?_, ?_, ?_, ?_⟩, hme⟩
   · intro w hw'
     rcases hw with e | e
     · exact mono (c.x.wr w (by rw [← e]; exact hw'))
     · rw [e] at hw'; cases hw'
+  · intro w hw'
+    exact mono (c.x.wl w (hl w hw'))
   · intro j k' pc w hj hkj hc
     have hji : j ≠ i := fun e => hj (by rw [e])
     exact mono (c.x.wk j k' pc w hj (by rw [← hkp j hji]; exact hkj) hc)
@@ -61,8 +64,8 @@ theorem WCtx.transfer {s s' : State} {i : Nat} {k : Kind} (c : WCtx s i k)
     exact c.x.ty j k' pc hj (by rw [← hkp j hji]; exact hkj) hk
 
 theorem WCtx.close {s : State} {i : Nat} {k : Kind} (c : WCtx s i k) (pc : Pc) (hme : kp s i = some (k, pc))
-    (h1 : ∀ w, carried pc = some w → isWat s w) (h2 : isWatcher k = true → wPc pc = true) : WI s := by
-  refine ⟨c.x.wr, ?_, ?_⟩
+    (h1 : ∀ w, w ∈ carried pc → isWat s w) (h2 : isWatcher k = true → wPc pc = true) : WI s := by
+  refine ⟨c.x.wr, c.x.wl, ?_, ?_⟩
   · intro j k' pc' w _ hkj hc
     by_cases hji : j = i
     · subst hji; rw [hme] at hkj; cases hkj; exact h1 w hc
@@ -73,7 +76,7 @@ theorem WCtx.close {s : State} {i : Nat} {k : Kind} (c : WCtx s i k) (pc : Pc) (
     · exact c.x.ty j k' pc' (by simp [hji]) hkj hk
 
 theorem WCtx.setPc_close {s : State} {i : Nat} {k : Kind} (c : WCtx s i k) (pc : Pc)
-    (h1 : ∀ w, carried pc = some w → isWat s w) (h2 : isWatcher k = true → wPc pc = true) : WI (s.setPc i pc) := by
+    (h1 : ∀ w, w ∈ carried pc → isWat s w) (h2 : isWatcher k = true → wPc pc = true) : WI (s.setPc i pc) := by
   obtain ⟨pc0, h0⟩ := c.me
   have hkp : ∀ j, j ≠ i → kp (s.setPc i pc) j = kp s j := fun j hj => by rw [kp_setPc]; simp [Ne.symm hj]
   have hme : kp (s.setPc i pc) i = some (k, pc) := by rw [kp_setPc]; simp [h0]
@@ -81,8 +84,9 @@ theorem WCtx.setPc_close {s : State} {i : Nat} {k : Kind} (c : WCtx s i k) (pc :
     (fun w hc => isWat_transfer c.me hkp ⟨pc, hme⟩ (h1 w hc)) h2
 
 theorem WCtx.congr {s s' : State} {i : Nat} {k : Kind} (c : WCtx s i k) (h1 : s'.threads = s.threads)
-    (h2 : s'.watcher = s.watcher ∨ s'.watcher = none) : WCtx s' i k :=
+    (h2 : s'.watcher = s.watcher ∨ s'.watcher = none) (h3 : s'.watchers = s.watchers := by rfl) : WCtx s' i k :=
   c.transfer (fun j _ => by simp [kp, h1]) (by obtain ⟨pc, h⟩ := c.me; exact ⟨pc, by simpa [kp, h1] using h⟩) h2
+    (fun w hw => by rw [h3] at hw; exact hw)
 
 theorem isWat_congr {s s' : State} (h1 : s'.threads = s.threads) {w : Nat} (h : isWat s w) : isWat s' w := by
   obtain ⟨pid, pc, hw⟩ := h
@@ -93,6 +97,12 @@ theorem WCtx.log {s : State} {i : Nat} {k : Kind} (c : WCtx s i k) (o : Obs) : W
 
 theorem kill_watcher (s : State) (pid sig : Nat) : (s.kill pid sig).watcher = s.watcher := by
   unfold State.kill; split <;> rfl
+@[simp] theorem kill_watchers (s : State) (pid sig : Nat) : (s.kill pid sig).watchers = s.watchers := by
+  unfold State.kill; split <;> rfl
+@[simp] theorem stopWatcher_watchers (s : State) : s.stopWatcher.watchers = s.watchers := by
+  unfold State.stopWatcher; split
+  · simp
+  · rfl
 theorem stopWatcher_watcher (s : State) : s.stopWatcher.watcher = s.watcher ∨ s.stopWatcher.watcher = none := by
   unfold State.stopWatcher; split
   · exact Or.inr rfl
@@ -122,7 +132,8 @@ theorem isWat_kill {s : State} (pid sig : Nat) {w : Nat} (h : isWat s w) : isWat
 /-- a thread is appended at `begin`; `watcher` is left alone or becomes the new thread, which is a watcher -/
 theorem WCtx.append {s s' : State} {i : Nat} {k : Kind} (c : WCtx s i k) (t0 : Thread) (h0b : t0.pc = .begin)
     (h1 : s'.threads = s.threads ++ [t0])
-    (h2 : s'.watcher = s.watcher ∨ (s'.watcher = some s.threads.length ∧ isWatcher t0.kind = true)) : WCtx s' i k := by
+    (h2 : s'.watcher = s.watcher ∨ (s'.watcher = some s.threads.length ∧ isWatcher t0.kind = true))
+    (h3 : ∀ w ∈ s'.watchers, w ∈ s.watchers ∨ (w = s.threads.length ∧ isWatcher t0.kind = true)) : WCtx s' i k := by
   obtain ⟨pc0, h0⟩ := c.me
   have hil := kp_lt h0
   have hold : ∀ j, j < s.threads.length → kp s' j = kp s j := fun j hj => by rw [kp_append _ h1]; simp [hj]
@@ -136,18 +147,25 @@ theorem WCtx.append {s s' : State} {i : Nat} {k : Kind} (c : WCtx s i k) (t0 : T
   have mono : ∀ {w}, isWat s w → isWat s' w := by
     intro w ⟨pid, pc, hw⟩
     exact ⟨pid, pc, by rw [hold w (kp_lt hw)]; exact hw⟩
-  refine ⟨⟨?_, ?_, ?_⟩, ⟨pc0, by rw [hold i hil]; exact h0⟩⟩
+  have newW : isWatcher t0.kind = true → isWat s' s.threads.length := by
+    intro hk
+    cases hkind : t0.kind with
+    | client => rw [hkind] at hk; cases hk
+    | deb => rw [hkind] at hk; cases hk
+    | watcher pid =>
+      refine ⟨pid, .begin, ?_⟩
+      rw [kp_append _ h1]
+      simp [hkind, h0b]
+  refine ⟨⟨?_, ?_, ?_, ?_⟩, ⟨pc0, by rw [hold i hil]; exact h0⟩⟩
   · intro w hw'
     rcases h2 with e | ⟨e, hk⟩
     · exact mono (c.x.wr w (by rw [← e]; exact hw'))
     · rw [e] at hw'; cases hw'
-      cases hkind : t0.kind with
-      | client => rw [hkind] at hk; cases hk
-      | deb => rw [hkind] at hk; cases hk
-      | watcher pid =>
-        refine ⟨pid, .begin, ?_⟩
-        rw [kp_append _ h1]
-        simp [hkind, h0b]
+      exact newW hk
+  · intro w hw'
+    rcases h3 w hw' with e | ⟨e, hk⟩
+    · exact mono (c.x.wl w e)
+    · rw [e]; exact newW hk
   · intro j k' pc w hj hkj hc
     by_cases hl : j < s.threads.length
     · exact mono (c.x.wk j k' pc w hj (by rw [← hold j hl]; exact hkj) hc)
@@ -167,7 +185,7 @@ theorem arrive_wi {s : State} {i : Nat} {k : Kind} (c : WCtx s i k) (hk : isWatc
   · next hn => rw [List.getElem?_eq_getElem hil] at hn; cases hn
   · next t ht =>
     have htk : t.kind = k := by simp [kp, ht] at h0; exact h0.1
-    have fin : ∀ (t' : Thread), t'.kind = t.kind → carried t'.pc = none → WI (s.setThread i t') := by
+    have fin : ∀ (t' : Thread), t'.kind = t.kind → carried t'.pc = [] → WI (s.setThread i t') := by
       intro t' hk' hnc
       have hkp : ∀ j, j ≠ i → kp (s.setThread i t') j = kp s j := fun j hj => by rw [kp_setThread]; simp [Ne.symm hj]
       have hme : kp (s.setThread i t') i = some (k, t'.pc) := by rw [kp_setThread]; simp [hil, hk', htk]
@@ -244,7 +262,12 @@ theorem startProcess_wi {s : State} {i : Nat} {k : Kind} (inStart : Bool) (c : W
   · exact fin s c
   · split
     · have c2 : WCtx (withWatcher s.spawn s.procs.length) i k :=
-        c.spawn.append { kind := .watcher s.procs.length, pc := .begin } rfl rfl (Or.inr ⟨rfl, rfl⟩)
+        c.spawn.append { kind := .watcher s.procs.length, pc := .begin } rfl rfl (Or.inr ⟨rfl, rfl⟩) (by
+          intro w hw
+          simp only [withWatcher, List.mem_append, List.mem_filter, List.mem_singleton] at hw
+          rcases hw with hw | hw
+          · exact Or.inl hw.1
+          · exact Or.inr ⟨hw, rfl⟩)
       refine c2.setPc_close (if inStart = true then Pc.saStarted else Pc.rStarted) (fun w h => by split at h <;> cases h) ?_
       intro hw
       split
@@ -253,7 +276,7 @@ theorem startProcess_wi {s : State} {i : Nat} {k : Kind} (inStart : Bool) (c : W
     · exact fin s.spawn c.spawn
 
 theorem afterStopProc_wi {s : State} {i : Nat} {k : Kind} (a : After) (c : WCtx s i k)
-    (hk : afterIsStop a = true → isWatcher k = false) (ha : ∀ w, a = .stop (some w) → isWat s w) :
+    (hk : afterIsStop a = true → isWatcher k = false) (ha : ∀ ws w, a = .stop ws → w ∈ ws → isWat s w) :
     WI (afterStopProc s i a) := by
   cases a with
   | restart => exact startProcess_wi false c (fun h => by cases h)
@@ -261,25 +284,25 @@ theorem afterStopProc_wi {s : State} {i : Nat} {k : Kind} (a : After) (c : WCtx 
     have hnw : isWatcher k = false := hk rfl
     have nw : ∀ pc : Pc, isWatcher k = true → wPc pc = true := fun _ h => by rw [hnw] at h; cases h
     have c1 : WCtx ({ s with restartOwner := none } : State) i k := c.congr rfl (Or.inl rfl)
-    have ha' : ∀ v, w = some v → isWat ({ s with restartOwner := none } : State) v :=
-      fun v e => isWat_congr (s := s) rfl (ha v (by rw [e]))
+    have ha' : ∀ v, v ∈ w → isWat ({ s with restartOwner := none } : State) v :=
+      fun v e => isWat_congr (s := s) rfl (ha w v rfl e)
     unfold afterStopProc
     simp only
     split
     · exact c1.setPc_close _ (fun v h => ha' v h) (nw _)
     · split
-      · next v => exact c1.setPc_close _ (fun v' h => by cases h; exact ha' v rfl) (nw _)
+      · next v rest => exact c1.setPc_close _ (fun v' h => ha' v' h) (nw _)
       · exact stopFinish_wi c1 hnw
 
 theorem stopProcDone_wi {s : State} {i : Nat} {k : Kind} (a : After) (c : WCtx s i k)
-    (hk : afterIsStop a = true → isWatcher k = false) (ha : ∀ w, a = .stop (some w) → isWat s w) :
+    (hk : afterIsStop a = true → isWatcher k = false) (ha : ∀ ws w, a = .stop ws → w ∈ ws → isWat s w) :
     WI (stopProcDone s i a) := by
   unfold stopProcDone
   exact afterStopProc_wi a (c.congr (s' := { s with process := none, procStopping := false }) rfl (Or.inl rfl)) hk
-    (fun w e => isWat_congr (s := s) rfl (ha w e))
+    (fun ws w e hm => isWat_congr (s := s) rfl (ha ws w e hm))
 
 theorem killLoop_wi {s : State} {i : Nat} {k : Kind} (kt : Nat) (a : After) (c : WCtx s i k)
-    (hk : afterIsStop a = true → isWatcher k = false) (ha : ∀ w, a = .stop (some w) → isWat s w) :
+    (hk : afterIsStop a = true → isWatcher k = false) (ha : ∀ ws w, a = .stop ws → w ∈ ws → isWat s w) :
     WI (killLoop s i kt a) := by
   unfold killLoop
   split
@@ -291,31 +314,31 @@ theorem killLoop_wi {s : State} {i : Nat} {k : Kind} (kt : Nat) (a : After) (c :
         · intro w h
           cases a with
           | restart => cases h
-          | stop v => exact ha w (by simp [carried] at h; rw [h])
+          | stop v => exact ha v w rfl h
         · intro hw
           cases a with
           | restart => rfl
           | stop w => have := hk rfl; rw [this] at hw; cases hw
     · split
-      · exact stopProcDone_wi a (c.kill _ 9) hk (fun w e => isWat_kill _ _ (ha w e))
+      · exact stopProcDone_wi a (c.kill _ 9) hk (fun ws w e hm => isWat_kill _ _ (ha ws w e hm))
       · exact stopProcDone_wi a c hk ha
 
 theorem stopProcBody_wi {s : State} {i : Nat} {k : Kind} (a : After) (c : WCtx s i k)
-    (hk : afterIsStop a = true → isWatcher k = false) (ha : ∀ w, a = .stop (some w) → isWat s w) :
+    (hk : afterIsStop a = true → isWatcher k = false) (ha : ∀ ws w, a = .stop ws → w ∈ ws → isWat s w) :
     WI (stopProcBody s i a) := by
   unfold stopProcBody
   split
   · exact afterStopProc_wi a c hk ha
   · have c2 : WCtx (({ s with procStopping := true } : State).stopWatcher) i k :=
       (c.congr (s' := { s with procStopping := true }) rfl (Or.inl rfl)).stopWatcher
-    have ha2 : ∀ w, a = .stop (some w) → isWat (({ s with procStopping := true } : State).stopWatcher) w :=
-      fun w e => isWat_stopWatcher (isWat_congr (s := s) rfl (ha w e))
+    have ha2 : ∀ ws w, a = .stop ws → w ∈ ws → isWat (({ s with procStopping := true } : State).stopWatcher) w :=
+      fun ws w e hm => isWat_stopWatcher (isWat_congr (s := s) rfl (ha ws w e hm))
     simp only
     split
-    · exact afterStopProc_wi a (c2.congr rfl (Or.inl rfl)) hk (fun w e => isWat_congr rfl (ha2 w e))
+    · exact afterStopProc_wi a (c2.congr rfl (Or.inl rfl)) hk (fun ws w e hm => isWat_congr rfl (ha2 ws w e hm))
     · split
       · exact stopProcDone_wi a c2 hk ha2
-      · exact killLoop_wi _ a (c2.kill _ 2) hk (fun w e => isWat_kill _ _ (ha2 w e))
+      · exact killLoop_wi _ a (c2.kill _ 2) hk (fun ws w e hm => isWat_kill _ _ (ha2 ws w e hm))
 
 theorem startBody_wi {s : State} {i : Nat} {k : Kind} (c : WCtx s i k) (hk : isWatcher k = false) : WI (startBody s i) := by
   have nw : ∀ pc : Pc, isWatcher k = true → wPc pc = true := fun _ h => by rw [hk] at h; cases h
@@ -328,7 +351,7 @@ theorem startBody_wi {s : State} {i : Nat} {k : Kind} (c : WCtx s i k) (hk : isW
       have hme : kp (s.setPc i Pc.saDebStarted) i = some (k, Pc.saDebStarted) := by rw [kp_setPc]; simp [h0]
       have c1 : WCtx (s.setPc i Pc.saDebStarted) i k := c.transfer hkp ⟨_, hme⟩ (Or.inl (by simp))
       have c2 : WCtx (withDeb (s.setPc i Pc.saDebStarted) s.threads.length) i k :=
-        c1.append { kind := .deb, pc := .begin } rfl rfl (Or.inl rfl)
+        c1.append { kind := .deb, pc := .begin } rfl rfl (Or.inl rfl) (fun w hw => Or.inl (by simpa [withDeb] using hw))
       have hme2 : kp (withDeb (s.setPc i Pc.saDebStarted) s.threads.length) i = some (k, Pc.saDebStarted) := by
         rw [kp_append (s := s.setPc i Pc.saDebStarted) { kind := .deb, pc := .begin } rfl i]
         simp [kp_lt h0, hme]
@@ -338,7 +361,7 @@ theorem startBody_wi {s : State} {i : Nat} {k : Kind} (c : WCtx s i k) (hk : isW
 /-! ### one step, whole runs -/
 
 theorem WI.open {s : State} {i : Nat} {t : Thread} (h : WI s) (ht : s.threads[i]? = some t) : WCtx s i t.kind :=
-  ⟨⟨h.wr, fun j k pc w _ hk hc => h.wk j k pc w (by simp) hk hc, fun j k pc _ hk hw => h.ty j k pc (by simp) hk hw⟩,
+  ⟨⟨h.wr, h.wl, fun j k pc w _ hk hc => h.wk j k pc w (by simp) hk hc, fun j k pc _ hk hw => h.ty j k pc (by simp) hk hw⟩,
     ⟨t.pc, by simp [kp, ht]⟩⟩
 
 theorem stepT_wi {s : State} {i : Nat} {t : Thread} (h : WI s) (ht : s.threads[i]? = some t) : WI (stepT s i t) := by
@@ -352,7 +375,7 @@ theorem stepT_wi {s : State} {i : Nat} {t : Thread} (h : WI s) (ht : s.threads[i
     cases hk : isWatcher t.kind with
     | false => rfl
     | true => rw [htyped hk] at hp; cases hp
-  have car : ∀ w, carried t.pc = some w → isWat s w := fun w hc => h.wk i _ _ w (by simp) hme hc
+  have car : ∀ w, w ∈ carried t.pc → isWat s w := fun w hc => h.wk i _ _ w (by simp) hme hc
   have nw : isWatcher t.kind = false → ∀ pc : Pc, isWatcher t.kind = true → wPc pc = true :=
     fun hk _ h' => by rw [hk] at h'; cases h'
   unfold stepT
@@ -386,11 +409,11 @@ theorem stepT_wi {s : State} {i : Nat} {t : Thread} (h : WI s) (ht : s.threads[i
     next a hb =>
     refine stopProcBody_wi a c ?_ ?_
     · intro ha; apply notW; rw [hb]; cases a <;> simp_all [afterIsStop, wPc]
-    · intro w e; exact car w (by rw [hb, e]; rfl)
+    · intro ws w e hm; exact car w (by rw [hb, e]; exact hm)
   · next kt dl a hb =>
     refine killLoop_wi kt a c ?_ ?_
     · intro ha; apply notW; rw [hb]; cases a <;> simp_all [afterIsStop, wPc]
-    · intro w e; exact car w (by rw [hb, e]; rfl)
+    · intro ws w e hm; exact car w (by rw [hb, e]; exact hm)
   · exact restartFinish_wi c
   · -- stAcq
     next hb =>
@@ -412,14 +435,18 @@ theorem stepT_wi {s : State} {i : Nat} {t : Thread} (h : WI s) (ht : s.threads[i
     have hk := notW (by rw [hb]; rfl)
     refine (c.congr (s' := { s with restartOwner := some i }) rfl (Or.inl rfl)).setPc_close _ ?_ (nw hk _)
     intro w hc
-    exact isWat_congr (s := s) rfl (c.x.wr w (by simpa [carried] using hc))
+    exact isWat_congr (s := s) rfl (c.x.wl w (by simpa [carried] using hc))
   · -- stJoinDeb
     next w hb =>
     have hk := notW (by rw [hb]; rfl)
     split
-    · next v => exact c.setPc_close _ (fun v' h' => by cases h'; exact car v (by rw [hb]; rfl)) (nw hk _)
+    · next v rest => exact c.setPc_close _ (fun v' h' => car v' (by rw [hb]; exact h')) (nw hk _)
     · exact stopFinish_wi c hk
-  · next w hb => exact stopFinish_wi c (notW (by rw [hb]; rfl))
+  · next w rest0 hb =>
+    have hk := notW (by rw [hb]; rfl)
+    split
+    · next v rest => exact c.setPc_close _ (fun v' h' => car v' (by rw [hb]; exact List.mem_cons_of_mem _ h')) (nw hk _)
+    · exact stopFinish_wi c hk
   · -- wWait
     next hb =>
     split
@@ -449,7 +476,7 @@ theorem init_wi (cfg : Cfg) (lifetimes : List (Option Nat)) (scripts : List (Lis
     cases hs : scripts[j]? with
     | none => rw [hs] at h; cases h
     | some x => rw [hs] at h; simp at h; exact ⟨h.1.symm, h.2.symm⟩
-  refine ⟨fun w h => by simp [init] at h, ?_, ?_⟩
+  refine ⟨fun w h => by simp [init] at h, fun w h => by simp [init] at h, ?_, ?_⟩
   · intro j k pc w _ h hc; rw [(hk j k pc h).2] at hc; cases hc
   · intro j k pc _ h hw; rw [(hk j k pc h).1] at hw; cases hw
 
@@ -459,7 +486,7 @@ theorem run_wi {s : State} (h : WI s) (as : List Action) : WI (run s as) := by
   | cons a as ih =>
     refine ih ?_
     cases a with
-    | tick d => exact ⟨h.wr, h.wk, h.ty⟩
+    | tick d => exact ⟨h.wr, h.wl, h.wk, h.ty⟩
     | step tid =>
       simp only [act, step]
       split
